@@ -53,7 +53,7 @@ func Run(c *core.Ctx) {
 	c.Expect("R1.double-count", 3)
 	c.Expect("R2.ack", 7)
 	c.Expect("R3.reconnect", 8)
-	c.Expect("R4.single-writer", 4)
+	c.Expect("R4.single-writer", 3)
 }
 
 // ---------------------------------------------------------------------------
@@ -287,10 +287,16 @@ func r2(c *core.Ctx) {
 	// the copy counter: the atomic2.Int64 that is Add-ed in pSyncPipeCopy's own loop
 	var cnt *types.Var
 	var addCall *ast.CallExpr
+	var addCalls []*ast.CallExpr
 	core.Inspect(copyFn.Decl.Body, func(n ast.Node) bool {
 		if call, ok := n.(*ast.CallExpr); ok {
-			if recv, name, ok := atomicMethod(info, call); ok && name == "Add" {
-				cnt, addCall = baseVar(info, recv), call
+			if recv, name, ok := atomicMethod(info, call); ok && (name == "Add" || name == "Incr") {
+				if addCall == nil {
+					cnt, addCall = baseVar(info, recv), call
+				}
+				if baseVar(info, recv) == cnt {
+					addCalls = append(addCalls, call)
+				}
 			}
 		}
 		return true
@@ -390,19 +396,48 @@ func r2(c *core.Ctx) {
 	}
 	nObj := core.ObjOf(info, read.Lhs[0])
 	okN := len(addCall.Args) == 1 && c03.IsObj(info, nObj)(stripConv(info, addCall.Args[0]))
+	viaWrite := false
+	if len(addCall.Args) == 1 && !okN {
+		if o, ok := c03.SoleOrigin(info, copyFn.Decl.Body, stripConv(info, addCall.Args[0])); ok && o.Expr != nil {
+			if call, ok := ast.Unparen(o.Expr).(*ast.CallExpr); ok && o.Res <= 0 {
+				if f := core.CalleeFunc(info, call); f != nil && f.Name() == "Write" {
+					viaWrite = true
+				}
+			}
+		}
+	}
 	if okN {
 		c.Okf(rule, "copy-counter/adds-read-length", addCall.Pos(), "the counter advances by the n of this iteration's Read")
+	} else if viaWrite || len(addCall.Args) != 1 || !core.Mentions(info, addCall.Args[0], nObj) && !isLenCall(info, stripConv(info, addCall.Args[0])) {
+		c.Undecidedf(rule, "copy-counter/adds-read-length", addCall.Pos(), "the counter advances by `%s`: not the known form (the n of the Read)", c.Src(addCall.Args[0]))
 	} else {
 		c.Failf(rule, "copy-counter/adds-read-length", addCall.Pos(), "the counter advances by `%s`, not by the number of bytes the Read returned: the acknowledged offset drifts from the bytes really received (e.g. a 100-byte read counted as len(p) = 8192)", c.Src(addCall.Args[0]))
 	}
 	rp, _ := g.Find(read)
 	ap, _ := g.Find(addCall)
 	isRead := func(m ast.Node) bool { return m == ast.Node(read) }
-	isAdd := func(m ast.Node) bool { return m == ap.Node() }
-	w := g.Path(cfgq.Query{From: rp, After: true, Avoid: isAdd, Target: isRead})
+	isAdd := func(m ast.Node) bool {
+		for _, a := range addCalls {
+			if p, ok := g.Find(a); ok && p.Node() == m {
+				return true
+			}
+		}
+		return false
+	}
+	fl := c03.NewFlow(g)
+	empty := func(ft cfgq.Fact) bool { // nothing was read
+		eq, ok := c03.EqFact(ft, c03.IsObj(info, nObj), func(x ast.Expr) bool { v, ok := core.IntConst(info, x); return ok && v == 0 })
+		return ok && eq
+	}
+	w := g.Path(cfgq.Query{From: rp, After: true, Avoid: isAdd, AvoidEdge: fl.Edge(empty), Target: isRead})
 	c.Check(rule, "copy-counter/every-chunk", addCall.Pos(), w == nil, "every chunk that was read and written must be counted before the next Read: uncounted bytes make the acknowledged offset fall behind and a reconnect re-request bytes already forwarded (commands applied twice)", w...)
-	w = g.Path(cfgq.Query{From: ap, After: true, Avoid: isRead, Target: isAdd})
-	c.Check(rule, "copy-counter/once-per-chunk", addCall.Pos(), w == nil, "a chunk is counted once", w...)
+	w = nil
+	for _, a := range addCalls {
+		if p, ok := g.Find(a); ok && w == nil {
+			w = g.Path(cfgq.Query{From: p, After: true, Avoid: isRead, Target: isAdd})
+		}
+	}
+	c.Check(rule, "copy-counter/once-per-chunk", addCall.Pos(), w == nil, "a chunk must be counted once: counting it twice makes the acknowledged offset (and the PSYNC offset after a reconnect) run ahead of the bytes received, so the source skips stream bytes on reconnect", w...)
 	// counted only after a successful write of exactly p[:n]
 	var write *ast.CallExpr
 	core.Inspect(copyFn.Decl.Body, func(m ast.Node) bool {
@@ -425,6 +460,15 @@ func r2(c *core.Ctx) {
 			c.Undecidedf(rule, "copy-counter/after-write", addCall.Pos(), "bytes can be counted before they were handed to the pipe: not the known copy-then-count order")
 		}
 	}
+}
+
+func isLenCall(info *types.Info, e ast.Expr) bool {
+	call, ok := ast.Unparen(e).(*ast.CallExpr)
+	if !ok {
+		return false
+	}
+	b, ok := core.Callee(info, call).(*types.Builtin)
+	return ok && (b.Name() == "len" || b.Name() == "cap")
 }
 
 func stripConv(info *types.Info, e ast.Expr) ast.Expr {
